@@ -13,7 +13,7 @@ CLAIMED = {
     note='Trusted: CPython ast, tsa analyser, PyNaCl verify/sign, nacl.bindings length constants (32/64). Stack items assumed bytes (C07.R1).'),
  'C03': dict(
     level='other', ref='DESIGN.md 4 C03',
-    technique='ast CFG rules on OP_CHECK_MULTISIG: success-edge consumption of the matched key (must-pass-through), exact verdict condition by linear-atom equivalence, operand-order agreement across VM / compiler / decompiler',
+    technique='ast CFG rules on OP_CHECK_MULTISIG: success-edge consumption of the matched key (must-pass-through), exact verdict condition by linear-atom equivalence, operand-order agreement across VM / compiler / decompiler; index-space typing of used-set idioms; the single-signature rules C02.R2-R4 re-evaluated as obligations',
     text='Decides the structural clauses of the threshold claim: on the success edge of the inner check the matched key leaves the candidate set before the next signature (so two signatures by one key cannot both count), confirmed signatures are a set grown only on that edge, true is put exactly when all m are confirmed, (flags, m, n) order agrees between VM, compiler and decompiler, and the inner check gets the rewound allowed-flags tape. Order independence rests on a cryptographic fact and is not decided.',
     note='Trusted: CPython ast, tsa analyser.'),
  'C04': dict(
@@ -23,18 +23,18 @@ CLAIMED = {
     note='Trusted: CPython ast, tsa analyser; hash ops assumed binding.'),
  'C05': dict(
     level='other', ref='DESIGN.md 4 C05',
-    technique='ast CFG edge-dominance on OP_TAPROOT (eval only through the root-match edge, evaluated item is the hashed script, key path fed root + operand flags + plugins) and template typing of the non-native taproot lock',
+    technique='ast CFG edge-dominance on OP_TAPROOT (eval only through the root-match edge, evaluated item is the hashed script, key path fed root + operand flags + plugins) and template typing of the non-native taproot lock; purity rule for Script.commitment(); dependency obligations on DEF binding (C06.R6) and point aggregation (C17.R4)',
     text='Decides exactness of the two spend paths structurally: the committed script runs only on the edge where the recomputed point equals the popped root and it is the very item that was hashed; a mismatch puts false without evaluating; the key path checks under the root with the operand flags and the parent plugins; the non-native lock types with its eval operand authenticated against the trusted root and is stack-compatible with both witnesses. The algebraic identity of the root and native/non-native verdict equivalence are not decided.',
     note='Trusted: CPython ast, tsa analyser; hash/point commitments assumed binding.'),
  'C06': dict(
     level='other', ref='DESIGN.md 4 C06',
-    technique='ast typestate invariant over all sub-tape handlers (return-flag scoping), alias/copy classification of EVAL sub-tape fields, cross-table agreement query (VM table vs docs.md vs language_spec.md vs compiler/decompiler case labels)',
-    text='Decides the clauses of C06 whose truth is in the shape of the code: RETURN scoping as an inductive invariant over every handler that runs a sub-tape (IF/IF_ELSE/TRY_EXCEPT transparent, CALL consumes, EVAL consumes unless eval_return, nothing may raise while the flag is pending), EVAL isolation (definitions and flags are copies), and agreement of the five opcode tables. Per-op operand orders, numeric results and boundary behaviour quantify over runtime values and are not decided.',
+    technique='ast typestate invariant over all sub-tape handlers (return-flag scoping), alias/copy classification of EVAL sub-tape fields, cross-table agreement query (VM table vs docs.md vs language_spec.md vs compiler/decompiler case labels), and an abstract counting interpretation of every handler over path sets (depth, low-water mark, operand stream) compared per operand sample with a hand-transcribed table of the documented stack effect and operand layout',
+    text='Decides the clauses of C06 whose truth is in the shape of the code: RETURN scoping as an inductive invariant over every handler that runs a sub-tape (IF/IF_ELSE/TRY_EXCEPT transparent, CALL consumes, EVAL consumes unless eval_return, nothing may raise while the flag is pending), EVAL isolation (definitions and flags are copies), agreement of the five opcode tables, DEF binding unconditionally / CALL running the named binding, and - for every op whose effect is a function of its tape operands - that every non-raising path needs and changes the stack depth exactly as documented for each operand sample including the boundary values 0/1/128/255, and reads exactly the documented operand fields. Which value an op computes (operand orders, numeric results, value-level boundary behaviour) quantifies over runtime values and is not decided.',
     note='Trusted: CPython ast, tsa analyser. Assumes handlers are reached only via run_tape dispatch or the handler->handler calls in the call graph.'),
  'C07': dict(
     level='other', ref='DESIGN.md 4 C07',
     technique='ast who-may-call / guard-exactness / taint analysis: storage-access inventory, dominator + linear-atom truth tables for the limit guards, read-size kind classification, call-graph cycles through run_tape with depth-guard dominance, loop-variant recognition, value-taint from script-chosen integers to allocation sinks',
-    text='Decides necessary structural conditions of C07 on every run: all stack growth goes through the checked put and its three guards are exact (so the maxlen deque can never silently drop an item), Tape bounds are exact, no read size can be negative, tape.pointer is written only by its owners, recursion through run_tape is depth-accounted (four known findings), every loop has a recognised termination variant, and no script-chosen integer reaches an allocation sink unbounded. Memory of big-integer arithmetic and non-limit Python exceptions are not decided.',
+    text='Decides necessary structural conditions of C07 on every run: all stack growth goes through the checked put and its three guards are exact (so the maxlen deque can never silently drop an item), Tape bounds are exact, no read size can be negative, tape.pointer is written only by its owners, recursion through run_tape is depth-accounted (four known findings), sequential drivers carry the call count of the tape that ran last into the next one, every loop has a recognised termination variant, and no script-chosen integer reaches an allocation sink unbounded. Memory of big-integer arithmetic and non-limit Python exceptions are not decided.',
     note='Trusted: CPython ast, tsa analyser, deque/bytes semantics. Known findings (uncounted nesting of IF/IF_ELSE/TRY_EXCEPT/LOOP) listed in known_findings.json.'),
  'C08': dict(
     level='proof', ref='DESIGN.md 4 C08',
@@ -64,7 +64,7 @@ CLAIMED = {
  'C14': dict(
     level='other', ref='DESIGN.md 4 C13-C15',
     technique='same template type system: authentication of certificate slices through split/copy ancestry from a verified check_sig_stack message, time-window rules over the boolean sub-domain, recursion typed under a call-site-checked assumption',
-    text='Necessary structural conditions of the delegation locks: every certificate slice that decides something (delegate key, begin, end, may-delegate) descends from the message of a verified check_sig_stack under the authorising key, both window bounds are enforced with the negated upper bound after a verified lower bound, further delegation needs the authenticated flag, the recursive chain call is typed under an assumption checked at each call site, split offsets match the Certificate layout, no parsed field is dead. Certificate pack/unpack round trip and cryptography are not decided.',
+    text='Necessary structural conditions of the delegation locks: every certificate slice that decides something (delegate key, begin, end, may-delegate) descends from the message of a verified check_sig_stack under the authorising key, both window bounds are enforced with the negated upper bound after a verified lower bound, further delegation needs the authenticated flag, the recursive chain call is typed under an assumption checked at each call site, split offsets match the Certificate layout, no parsed field is dead, positional constructor arguments land in the field they are named after. Certificate pack/unpack round trip and cryptography are not decided.',
     note='Trusted: CPython ast, tsa analyser; ed25519 unforgeability.'),
  'C15': dict(
     level='other', ref='DESIGN.md 4 C13-C15',
@@ -78,18 +78,18 @@ CLAIMED = {
     note='Trusted: CPython ast, tsa analyser. Assumes the presence/type guards before the comparison only reject malformed inputs, and that push d<ts> and the unsigned decode agree for ts >= 0.'),
  'C17': dict(
     level='other', ref='DESIGN.md 4 C17',
-    technique='ast term-shape comparison: the Fiat-Shamir challenge input of each adapter maker (locals inlined down to stack pops and library calls) against the checker\'s; shape of decryption',
-    text='Narrow by design: decides one necessary condition of "the adapter passes the adapter check" - both makers must hash the same term shape as the checker (aggregate of nonce point and tweak point, key, message) - and that decryption is s = sa + t, RT = R + T. The identities for all scalars, clamping edge cases and corruption soundness are group algebra through opaque libsodium calls and are not decided (they quantify over runtime values).',
+    technique='ast term-shape comparison: the Fiat-Shamir challenge input of each adapter maker (locals inlined down to stack pops and library calls) against the checker\'s; value-kind (def-use) classification of what decryption puts on every path; who-reads-the-cache rule for the adapter ops; fold-completeness rule for the aggregation helpers',
+    text='Narrow by design: decides one necessary condition of "the adapter passes the adapter check" - both makers must hash the same term shape as the checker (aggregate of nonce point and tweak point, key, message) - that decryption puts exactly RT = R + T and s = sa + t computed from the popped operands on every path, that no adapter instruction reads the cache (a value left by another adapter cannot flow into a result), and that aggregate_points / aggregate_scalars fold every element they are given. The identities for all scalars, clamping edge cases and corruption soundness are group algebra through opaque libsodium calls and are not decided (they quantify over runtime values).',
     note='Trusted: CPython ast, tsa analyser. Known finding: the PRIVATE maker (listed in known_findings.json).'),
  'C19': dict(
     level='other', ref='DESIGN.md 4 C19',
-    technique='interprocedural write-effect summaries (fixpoint over the call graph) used for an iteration/mutation conflict rule, a who-may-write rule for the module-level registries with call-graph unreachability from run/compile entry points, guard dominance for set semantics, and a mutable-default escape rule',
+    technique='interprocedural write-effect summaries (fixpoint over the call graph) used for an iteration/mutation conflict rule, a who-may-write rule for the module-level registries with call-graph unreachability from run/compile entry points, guard dominance for set semantics, a mutable-default escape rule, alias tracking through constructor keywords and method calls, and a shared-entry-object rule for registry initialisers',
     text='Decides the history channels of C19 on the source: no collection is structurally mutated while iterated (directly or via callees), registries are written only by the add_/remove_/reset_ API and no run/compile entry point or handler can reach a writer, the API has insert-if-absent / delete-if-present shape, no mutable default that a caller can take is mutated through forwarding, and the embedder dictionaries are only read or copied. Set semantics over arbitrary histories (e.g. interfaces keyed by __name__) is not decided.',
     note='Trusted: CPython ast, tsa analyser; call graph = direct calls through resolved names plus run_tape dispatch to every registered handler.'),
  'C20': dict(
     level='other', ref='DESIGN.md 4 C20',
     technique='table evaluation from the module body (dispatch totality over 0..255), effect-set extraction of the NOP handler, sibling cross-check of the one-byte operand across VM / compiler / decompiler / generated soft-fork handlers, coherence rule for add_opcode',
-    text='Decides the structural clauses of C20: the op and NOP tables partition all 256 byte values and run_tape falls back to the NOP table, NOP has exactly the effect set {read one signed byte, guard count >= 0, pop count items}, every party (VM, compiler, decompiler, both generated soft-fork handlers) agrees on exactly one operand byte, and add_opcode / add_soft_fork keep the four tables and the parsing handlers coherent. Upgraded-vs-old VM verdict equivalence needs the semantics of the forked op and is not decided.',
+    text='Decides the structural clauses of C20: the op and NOP tables partition all 256 byte values and run_tape falls back to the NOP table, NOP has exactly the effect set {read one signed byte, guard count >= 0, pop count items} and no failure condition beyond a negative count or too few items, every party (VM, compiler, decompiler, both generated soft-fork handlers) agrees on exactly one operand byte, and add_opcode / add_soft_fork keep the four tables and the parsing handlers coherent. Upgraded-vs-old VM verdict equivalence needs the semantics of the forked op and is not decided.',
     note='Trusted: CPython ast, tsa analyser (restricted constant evaluator for the module-level tables).'),
  'C01': dict(
     level='other', ref='DESIGN.md 4 C01',
